@@ -1,5 +1,6 @@
 """C07: undo restores the previous text, redo re-applies it."""
 import json
+import re
 
 from .. import vim_lang as V
 from ..common import C, run_coq_eval, server_map, txt, untxt
@@ -201,6 +202,34 @@ def run(chk, binary):
             chk.violation("correspondence:undo/redo stacks", dict(case0, impl_buf=final["buf"], model_buf=untxt(mbuf),
                           impl_undo=iundo[:3], model_undo=mu[:3], impl_redo=iredo[:3], model_redo=mr[:3]), concrete=False)
     chk.cov["traces_validated_against_impl"] = len(cases)
+    # ---- a change, two repeats in a row, one u - typed as one key string and as four: the same text ----
+    dreqs, dmeta = [], []
+    for _ in range(400 if thorough else 60):
+        text = rng.choice([t for t in V.TEXTS if len(t) > 3 and "\r" not in t])
+        chg = rng.choice(["iab<esc>", "Axy<esc>", "ix<BS>é<esc>", "x", "dw", "rZ", "ofoo<esc>", "~", "cwQ<esc>", "i日<esc>"])
+        tail = rng.choice(["..u", "..uu", ".2.u", "...u", "..u<c-r>"])
+        parts = [chg] + re.findall(r"\d*\.|u|<c-r>", tail)
+        for ks in ([chg + tail], parts):
+            dreqs.append({"op": "keys", "text": text, "cursor": 0, "keys": ks})
+        dmeta.append((text, chg, tail, parts))
+    os.environ["VERIF_SERVER_SHELL"] = "/bin/sh"
+    try:
+        dans = server_map(binary, dreqs)
+    finally:
+        os.environ.pop("VERIF_SERVER_SHELL", None)
+    for k_, (text, chg, tail, parts) in enumerate(dmeta):
+        a1, a2 = dans[2 * k_], dans[2 * k_ + 1]
+        chk.count(("c07-dots", text, chg, tail), nontrivial=True)
+        dist["repeat_repeat_undo"] = dist.get("repeat_repeat_undo", 0) + 1
+        b1 = (a1.get("steps") or [{}])[-1].get("buf")
+        b2 = (a2.get("steps") or [{}])[-1].get("buf")
+        if b1 is None or b2 is None:
+            if any(x in tail for x in ("u", "<c-r>")):
+                chk.violation("spec:undo/redo panicked", {"text": text, "history": [chg + tail], "answer": str(a1)[:200]})
+            continue
+        if b1 != b2:
+            chk.violation("spec:u after repeats typed in one key string takes back something else than after the same keys typed one by one",
+                          {"text": text, "one_string": chg + tail, "one_by_one": parts, "text_one_string": b1, "text_one_by_one": b2})
     chk.cov["input_distribution"] = dist
     if cmeta:
         chk.sample(cmeta[0][0])
